@@ -549,7 +549,7 @@ fn build_filter(lhs: &AstNode, rhs: &AstNode) -> Result<Evaluator> {
         let rhv = rhe(scope);
         match rhv {
           Value::Number(index) => {
-            if index.is_integer() {
+            if index.trunc() == index {
               let list_size = values.as_vec().len();
               if !index.is_negative() {
                 let n = {
